@@ -973,3 +973,38 @@ def code_objects(*funcs_or_classes):
     for f in funcs_or_classes:
         add(f)
     return out
+
+
+def code_closure(*roots, depth=1, skip_names=()):
+    """code_objects(*roots) plus, `depth` levels deep, every function or method of a loaded Pyro5 module that the code refers
+    to by name (global functions, methods of any class of those modules): a changed tree that moves part of a monitored
+    function into a new helper keeps its pre-emption points. Order is deterministic (discovery order, names sorted)."""
+    import sys as _sys
+    import types as _types
+    out = list(code_objects(*roots))
+    seen = set(id(c) for c in out)
+    mods = [m for n, m in sorted(_sys.modules.items()) if (n == "Pyro5" or n.startswith("Pyro5.")) and m is not None]
+    index = {}
+    for m in mods:
+        for n, v in sorted(vars(m).items()):
+            if isinstance(v, _types.FunctionType) and getattr(v, "__module__", "").startswith("Pyro5"):
+                index.setdefault(n, []).append(v)
+            elif isinstance(v, type) and getattr(v, "__module__", "").startswith("Pyro5"):
+                for n2, v2 in sorted(vars(v).items(), key=lambda kv: kv[0]):
+                    if isinstance(v2, (_types.FunctionType, staticmethod, classmethod, property)):
+                        index.setdefault(n2, []).append(v2)
+    frontier = list(out)
+    for _ in range(depth):
+        nxt = []
+        for c in frontier:
+            for n in sorted(set(c.co_names)):
+                if n in skip_names or n.startswith("__"):
+                    continue
+                for f in index.get(n, ()):
+                    for c2 in code_objects(f):
+                        if id(c2) not in seen:
+                            seen.add(id(c2))
+                            out.append(c2)
+                            nxt.append(c2)
+        frontier = nxt
+    return out
